@@ -1726,9 +1726,9 @@ SIGNATURES = {"definition_domains_order": _sig_definition_order}
 
 def run(ctx) -> None:
     shards = ctx.pick(8, 16)
-    ctx.hyp("rules", rules_specs(), max_examples=ctx.pick(320, 8000), shards=shards)
-    ctx.hyp("sideload", sideload_specs(), max_examples=ctx.pick(300, 8000), shards=shards)
-    ctx.hyp("nrps", nrps_specs(), max_examples=ctx.pick(300, 8000), shards=shards)
-    ctx.hyp("hmmer", hmmer_specs(), max_examples=ctx.pick(400, 10000), shards=shards)
-    ctx.hyp("tta", tta_specs(), max_examples=ctx.pick(400, 10000), shards=shards)
-    ctx.hyp("hmmresult", hmmresult_specs(), max_examples=ctx.pick(600, 12000), shards=shards)
+    ctx.hyp("rules", rules_specs(), max_examples=ctx.pick(600, 12000), shards=shards)
+    ctx.hyp("sideload", sideload_specs(), max_examples=ctx.pick(500, 12000), shards=shards)
+    ctx.hyp("nrps", nrps_specs(), max_examples=ctx.pick(500, 12000), shards=shards)
+    ctx.hyp("hmmer", hmmer_specs(), max_examples=ctx.pick(700, 15000), shards=shards)
+    ctx.hyp("tta", tta_specs(), max_examples=ctx.pick(700, 15000), shards=shards)
+    ctx.hyp("hmmresult", hmmresult_specs(), max_examples=ctx.pick(1000, 16000), shards=shards)
